@@ -56,7 +56,8 @@ def run(ctx):
         key_fn=key_fn, what_fn=what_fn,
         # keep-alive / connection sentence (Model/HttpConns.v, Proofs/HttpConnsProofs.v); request body / answer under the gun
         # options that make Shoot read them (Model/HttpShoot.v, Proofs/HttpShootProofs.v)
-        bridge_files=["Properties/C09_conns.v", "Properties/C09_shoot.v"],
+        # the "[key: value]" line syntax (Model/HdrLine.v, Proofs/HdrLineProofs.v)
+        bridge_files=["Properties/C09_conns.v", "Properties/C09_shoot.v", "Properties/C09_hdrline.v"],
         trusted=[
             "extraction: ExtrOcamlBasic only; OCaml driver ocaml/C09/main.ml + ocaml/common/conv.ml",
             "correspondence harness harness/cmd/hC09 (config decoder, http providers uri/uripost/http-json/raw, http gun, engine: all real; "
